@@ -233,6 +233,7 @@ fn exec_inner(st: &mut St, cmd: &str) -> String {
             qvnt::verif::seed(None);
             format!("{} {}", fvec(&normals), nvec(&h))
         }
+        "valid" => cvec(st.q.as_ref().expect("no qreg").verif_psi()),
         "qvreg" => vobs(&st.q.as_ref().expect("no qreg").get_vreg()),
         "qvregby" => match st.q.as_ref().expect("no qreg").get_vreg_by(toks[1].parse().unwrap()) {
             Some(v) => format!("some {}", vobs(&v)),
@@ -769,6 +770,285 @@ fn gen_c04_case(r: &mut Rng, max_n: usize, max_thr: usize, long: bool, stats: &m
     (format!("n={n} lens={le}+{lf}"), cmds)
 }
 
+fn word_mask(r: &mut Rng) -> usize {
+    match r.below(8) {
+        0 => 0,
+        1 => !0usize,
+        2 => 1usize << 63,
+        3 => (1usize << 63) | r.submask(0xffff),
+        4 => r.next() as usize,
+        5 => (r.next() & r.next() & r.next()) as usize,
+        6 => (r.next() | r.next() | (1u64 << 63)) as usize,
+        _ => r.submask(0xff),
+    }
+}
+
+/// C14: construction, tensor product, resizing, observable sizes.
+fn gen_reg_case(r: &mut Rng, max_n: usize, max_thr: usize, stats: &mut HashMap<String, usize>) -> (String, Vec<String>) {
+    let mut cmds = Vec::new();
+    let n = r.range(0, max_n.min(5));
+    let thr = threads_choice(r, max_thr);
+    let s = if r.chance(1, 3) { r.next() as usize % (1usize << (n + 3)) } else { r.below(1usize << n) };
+    cmds.push(format!("qstate {n} {s} {thr}"));
+    cmds.push("qobs".into());
+    let mut cur = n;
+    let steps = r.range(1, 4);
+    for _ in 0..steps {
+        match r.below(6) {
+            0 | 1 => {
+                // tensor with another register in an arbitrary state
+                let n2 = r.range(0, 3);
+                if cur + n2 > max_n + 2 {
+                    continue;
+                }
+                let thr2 = threads_choice(r, max_thr);
+                if r.chance(1, 2) {
+                    cmds.push(format!("q2state {n2} {} {thr2}", r.below(1usize << (n2 + 1))));
+                } else {
+                    cmds.push(format!("q2reg {n2} {thr2}"));
+                    cmds.push(format!("set2psi {}", cvec(&rand_psi(r, n2, false))));
+                }
+                if r.chance(1, 2) {
+                    cmds.push(format!("setpsi {}", cvec(&rand_psi(r, cur, false))));
+                }
+                cmds.push(if r.chance(1, 3) { "tensor assign".into() } else { "tensor".to_string() });
+                cur += n2;
+                *stats.entry("tensor".into()).or_default() += 1;
+            }
+            2 | 3 => {
+                let n2 = r.range(0, (max_n + 1).min(cur + 3));
+                if r.chance(1, 2) {
+                    cmds.push(format!("setpsi {}", cvec(&rand_psi(r, cur, false))));
+                }
+                cmds.push(if r.chance(1, 5) { format!("setnumnr {n2}") } else { format!("setnum {n2}") });
+                *stats.entry(if n2 < cur { "shrink".into() } else { "grow".to_string() }).or_default() += 1;
+                cur = n2;
+            }
+            4 => {
+                cmds.push("probs".into());
+                cmds.push("polar".into());
+                cmds.push("qvreg".into());
+                cmds.push(format!("sample {} {}", r.below(50), r.next() >> 1));
+            }
+            _ => {
+                let a = r.range(0, 6);
+                let b = r.range(0, 6);
+                cmds.push(format!("creg {a} {}", r.below(1usize << (a + 2))));
+                cmds.push(format!("ctensor {b} {}", r.below(1usize << (b + 1))));
+                *stats.entry("ctensor".into()).or_default() += 1;
+            }
+        }
+    }
+    cmds.push("probs".into());
+    *stats.entry(format!("n.{n}")).or_default() += 1;
+    (format!("n={n}"), cmds)
+}
+
+fn unitary_prog(r: &mut Rng, n: usize) -> ops::Prog {
+    let cfg = GenCfg { bits: n, max_depth: 2, bad_permille: 0 };
+    loop {
+        let p = ops::gen_prog(r, &cfg, 0);
+        if let Built::Ok(_) = ops::build(&p) {
+            return p;
+        }
+    }
+}
+
+/// C05: histories of public operations; the state must stay valid after every step.
+fn gen_hist_case(r: &mut Rng, max_n: usize, max_thr: usize, steps_max: usize, stats: &mut HashMap<String, usize>) -> (String, Vec<String>) {
+    let mut n = r.range(0, max_n.min(5));
+    let thr = threads_choice(r, max_thr);
+    let mut cmds = vec![format!("qstate {n} {} {thr}", r.below(1usize << n)), "valid".into()];
+    let steps = r.range(2, steps_max);
+    for _ in 0..steps {
+        let k = r.below(10);
+        let kind = match k {
+            0..=3 => {
+                cmds.push(format!("op {}", ops::prog_text(&unitary_prog(r, n))));
+                cmds.push("apply".into());
+                "apply"
+            }
+            4..=6 => {
+                let all = (1usize << n) - 1;
+                let m = match r.below(4) {
+                    0 => all,
+                    1 => r.submask(all) | (r.next() as usize & !all & 0xff00),
+                    _ => r.submask(all),
+                };
+                if r.chance(1, 6) {
+                    cmds.push(format!("measure all {}", r.next() >> 1));
+                } else {
+                    cmds.push(format!("measure {m} {}", r.next() >> 1));
+                }
+                "measure"
+            }
+            7 => {
+                let n2 = r.range(0, 2);
+                if n + n2 > max_n {
+                    continue;
+                }
+                cmds.push(format!("q2state {n2} {} 1", r.below(1usize << n2)));
+                cmds.push("tensor".into());
+                n += n2;
+                "tensor"
+            }
+            8 => {
+                let n2 = r.range(0, max_n.min(n + 2));
+                cmds.push(format!("setnum {n2}"));
+                n = n2;
+                "setnum"
+            }
+            _ => {
+                let all = (1usize << n) - 1;
+                cmds.push(format!("resetmask {} {}", r.submask(all), r.next() >> 1));
+                "resetmask"
+            }
+        };
+        *stats.entry(format!("step.{kind}")).or_default() += 1;
+        cmds.push("valid".into());
+        if r.chance(1, 5) {
+            cmds.push("probs".into());
+        }
+    }
+    *stats.entry(format!("steps.{}", (steps / 10 * 10).min(200))).or_default() += 1;
+    (format!("n0={n}"), cmds)
+}
+
+/// C06: measurement of arbitrary states with arbitrary masks, repeated.
+fn gen_meas_case(r: &mut Rng, max_n: usize, max_thr: usize, stats: &mut HashMap<String, usize>) -> (String, Vec<String>) {
+    let n = r.range(0, max_n);
+    let all = (1usize << n) - 1;
+    let mut cmds = reg_cmds(r, n, max_thr, false);
+    if r.chance(1, 2) {
+        cmds.push(format!("op {}", ops::prog_text(&unitary_prog(r, n))));
+        cmds.push("apply".into());
+    }
+    let m = match r.below(6) {
+        0 => 0,
+        1 => all,
+        2 => r.submask(all) | ((r.next() as usize) & !all),
+        3 => (r.next() as usize) & !all,
+        _ => r.submask(all),
+    };
+    *stats.entry(format!("maskbits.{}", (m & all).count_ones())).or_default() += 1;
+    *stats.entry(if m & !all != 0 { "beyond".into() } else { "inside".to_string() }).or_default() += 1;
+    cmds.push(format!("measure {m} {}", r.next() >> 1));
+    cmds.push(format!("measure {m} {}", r.next() >> 1));
+    // a sub-mask and a disjoint mask afterwards
+    let sub = r.submask(m & all);
+    cmds.push(format!("measure {sub} {}", r.next() >> 1));
+    let other = r.submask(all & !m);
+    cmds.push(format!("measure {other} {}", r.next() >> 1));
+    cmds.push(format!("measure {m} {}", r.next() >> 1));
+    if r.chance(1, 4) {
+        cmds.push("measure all".into());
+        cmds.push("measure all".into());
+    }
+    (format!("n={n} mask={m}"), cmds)
+}
+
+/// C16: histograms of sparse states, all shot counts.
+fn gen_sample_case(r: &mut Rng, max_n: usize, max_thr: usize, stats: &mut HashMap<String, usize>) -> (String, Vec<String>) {
+    let n = r.range(0, max_n);
+    let size = 1usize << n;
+    let thr = threads_choice(r, max_thr);
+    let mut cmds = vec![format!("qreg {n} {thr}")];
+    // sparse state: k non-zero amplitudes
+    let kmax = 1 + r.below(6);
+    let k = r.range(1, size.min(kmax));
+    let mut v = vec![C { re: 0.0, im: 0.0 }; size.max(8)];
+    for _ in 0..k {
+        v[r.below(size)] = C { re: r.sym(), im: r.sym() };
+    }
+    let norm: f64 = v.iter().map(|z| z.re * z.re + z.im * z.im).sum::<f64>().sqrt();
+    if norm < 1e-3 {
+        v[0] = C { re: 1.0, im: 0.0 };
+    } else {
+        for z in v.iter_mut() {
+            z.re /= norm;
+            z.im /= norm;
+        }
+    }
+    cmds.push(format!("setpsi {}", cvec(&v)));
+    if r.chance(1, 3) {
+        cmds.push(format!("op {}", ops::prog_text(&unitary_prog(r, n))));
+        cmds.push("apply".into());
+    }
+    for _ in 0..r.range(1, 4) {
+        let count = match r.below(7) {
+            0 => 0,
+            1 => 1,
+            2 => 2 * r.below(50) + 1,
+            3 => r.below(10),
+            4 => 1001,
+            5 => r.below(100000),
+            _ => r.below(2000),
+        };
+        *stats.entry(format!("count.{}", if count < 2 { count.to_string() } else if count < 100 { "small".into() } else { "large".into() })).or_default() += 1;
+        cmds.push(format!("sample {count} {}", r.next() >> 1));
+    }
+    *stats.entry(format!("n.{n}")).or_default() += 1;
+    *stats.entry(format!("thr.{}", if thr == 1 { "single" } else { "multi" })).or_default() += 1;
+    (format!("n={n} support={k}"), cmds)
+}
+
+/// C20: bit-mask bookkeeping over the full word range.
+fn gen_bits_case(r: &mut Rng, stats: &mut HashMap<String, usize>) -> (String, Vec<String>) {
+    let mut cmds = Vec::new();
+    let m = word_mask(r);
+    *stats.entry(if m >> 63 == 1 { "topbit".into() } else { "notop".to_string() }).or_default() += 1;
+    cmds.push(format!("bitsiter {m}"));
+    cmds.push(format!("countbits {m}"));
+    cmds.push(format!("vreg {m}"));
+    let k = m.count_ones() as usize;
+    for _ in 0..3 {
+        cmds.push(format!("vidx {}", r.below(k + 2)));
+    }
+    cmds.push(format!("vpred {}", (r.next() as u128) | ((r.next() as u128) << 64)));
+    let len = r.below(5);
+    let l: Vec<String> = (0..len).map(|_| r.below(k + 3).to_string()).collect();
+    cmds.push(format!("vlist {}", l.join(" ")).trim_end().to_string());
+    let nn = *r.pick(&[0usize, 1, 2, 5, 8, 31, 32, 63, 64]);
+    cmds.push(format!("vnew {nn}"));
+    // structure of the multi-qubit constructors on word-wide masks
+    if r.chance(1, 2) {
+        let hm = word_mask(r);
+        cmds.push(format!("op h {hm}"));
+        if r.chance(1, 2) {
+            cmds.push(format!("op qfts {}", hm & 0x8000_0000_0000_00ff));
+        }
+    }
+    // classical registers
+    let cn = *r.pick(&[0usize, 1, 2, 3, 7, 8, 17, 31, 32, 63, 64]);
+    let cv = if r.chance(1, 2) { r.next() as usize } else { r.below(1 << 10) };
+    cmds.push(format!("creg {cn} {cv}"));
+    let inside = if cn >= 64 { !0usize } else { (1usize << cn) - 1 };
+    for _ in 0..r.range(1, 5) {
+        let mk = if r.chance(1, 6) { r.next() as usize } else { r.submask(inside) };
+        match r.below(5) {
+            0 => cmds.push(format!("cset {} {mk}", r.below(2))),
+            1 => cmds.push(format!("cxor {} {mk}", r.below(2))),
+            2 => cmds.push(format!("cgetmask {}", if r.chance(1, 3) { r.next() as usize } else { mk })),
+            3 => cmds.push(format!("creset {}", r.next() as usize)),
+            _ => cmds.push("cdebug".into()),
+        }
+    }
+    if cn <= 40 {
+        let b = r.range(0, 20);
+        cmds.push(format!("ctensor {b} {}", r.below(1usize << (b + 1))));
+        cmds.push("cdebug".into());
+    }
+    if r.chance(1, 3) {
+        cmds.push(format!("csetnum {}", *r.pick(&[0usize, 1, 3, 8, 64])));
+    }
+    // views of a quantum register
+    let qn = r.range(0, 5);
+    cmds.push(format!("qreg {qn} 1"));
+    cmds.push("qvreg".into());
+    cmds.push(format!("qvregby {}", if r.chance(1, 2) { r.submask((1 << qn) - 1) } else { word_mask(r) }));
+    (format!("mask={m}"), cmds)
+}
+
 fn gen_dft_case(r: &mut Rng, max_n: usize, max_thr: usize, stats: &mut HashMap<String, usize>) -> (String, Vec<String>) {
     let n = r.range(1, max_n.max(1));
     let all = (1usize << n) - 1;
@@ -806,6 +1086,11 @@ pub fn run(suite: &str, seed: u64, count: usize, kv: &HashMap<String, String>, t
             "c02" => gen_c02_case(&mut r, max_n, max_thr, &mut stats),
             "c03" => gen_c03_case(&mut r, max_n, max_thr, &mut stats),
             "c04" => gen_c04_case(&mut r, max_n, max_thr, long, &mut stats),
+            "reg" => gen_reg_case(&mut r, max_n, max_thr, &mut stats),
+            "hist" => gen_hist_case(&mut r, max_n, max_thr, kv.get("steps").and_then(|s| s.parse().ok()).unwrap_or(12), &mut stats),
+            "meas" => gen_meas_case(&mut r, max_n, max_thr, &mut stats),
+            "sample" => gen_sample_case(&mut r, max_n, max_thr, &mut stats),
+            "bits" => gen_bits_case(&mut r, &mut stats),
             "dft" => gen_dft_case(&mut r, max_n, max_thr, &mut stats),
             other => panic!("unknown suite {other}"),
         };
